@@ -158,6 +158,13 @@ def rectangleAt (half : K) (n0 n1 : Int) (width height s0 s1 ca sa : K) (aa : Bo
   let m := minK (minK 1 wc) hc
   if aa then m else binarise m
 
+/-- `shape.spider`: one minus a rectangle of length `len = √2·max(shape)/2` and the given width, pushed out from the (shifted) centre by
+`len/2` along the direction `angle` (`ca`, `sa` = cos, sin of the angle; `sqrt2` = √2) -/
+def spiderAt [Div K] (half sqrt2 : K) (n0 n1 : Int) (width s0 s1 ca sa : K) (aa : Bool) (i j : Int) : K :=
+  let len := sqrt2 * ((max n0 n1 : Int) : K) / ((2 : Int) : K)
+  let dist := len / ((2 : Int) : K)
+  1 - rectangleAt half n0 n1 len width (s0 + -dist * sa) (s1 + dist * ca) ca sa aa i j
+
 /-- one of the six half-planes of `shape.hexagon` (normal `(sn, cn)`) -/
 def hexSide (half inner : K) (aa : Bool) (r c sn cn : K) : K :=
   let rho := r * sn + c * cn
@@ -198,6 +205,10 @@ def hexRing (k : Nat) : List HexCell := (walkSides k 6).1
 def hexToRC [Add K] [Mul K] [Neg K] [IntCast K] (sqrt3 sqrt3h threeHalf : K) (h : HexCell) (radius : K) (rotate : Bool) : K × K :=
   if rotate then (-(radius * (threeHalf * (h.2.1 : K))), radius * (sqrt3 * (h.1 : K) + sqrt3h * (h.2.1 : K)))
   else (-(radius * (sqrt3h * (h.1 : K) + sqrt3 * (h.2.1 : K))), radius * (threeHalf * (h.1 : K)))
+
+/-- array size of `hex_segments`: `np.ceil((rings*2+1)*inner_radius*2 + (rings*2)*seg_gap + pad*2)` -/
+def hexSegmentsSize [Add K] [Mul K] [NatCast K] (ceil : K → Int) (rings pad : Nat) (inner gap : K) : Int :=
+  ceil (((rings * 2 + 1 : Nat) : K) * inner * ((2 : Nat) : K) + ((rings * 2 : Nat) : K) * gap + ((pad * 2 : Nat) : K))
 
 /-- cells in the numbering of `hex_segments`: 0 = centre, then ring 1, ring 2, … -/
 def segCells : Nat → List HexCell
